@@ -94,6 +94,39 @@ theorem react_result {F : Facts} (hF : genFacts = some F) (cfg : Config) (mode :
     simp only [hl] at hm
     exact rounds_result cfg _ script l orig m hm
 
+/-- **react_result, converse (the agent does answer).** If reply `k` is the first one the
+    branch sends to END, every earlier reply went round (tools ran, no return-directly call)
+    and the step limit `l` covers the `2k+1` node executions, the agent returns exactly that
+    assistant message, after `k+1` model calls and `2k+1` node executions. -/
+theorem react_result_complete {F : Facts} (hF : genFacts = some F) (cfg : Config) (mode : Mode)
+    (orig : List Msg) (script : List Reply) (l k : Nat) (r : Reply)
+    (hl : stepLimit F cfg = some l) (hk : script[k]? = some r)
+    (hpre : ∀ (j : Nat) rj, j < k → script[j]? = some rj → Continues cfg (goes F cfg mode) rj)
+    (hend : goes F cfg mode r = false) (hb : 2 * k + 1 ≤ l) :
+    (run F cfg mode orig script).result = .ok r.full ∧
+    (run F cfg mode orig script).evs.length = 2 * k + 1 ∧
+    (run F cfg mode orig script).seen.length = k + 1 := by
+  rw [facts_eq hF] at hl hpre hend ⊢
+  rw [run_eq]; simp only [hl]
+  exact rounds_complete_end cfg _ k script l orig r hk hpre hend hb
+
+/-- … and if reply `k` is the first one with a call to a return-directly tool (non-empty
+    recorded id), its tools succeed and the limit covers `2k+3` executions, the agent returns
+    what direct_return picks for that id (by `react_result_direct`: the answer to the first
+    such call). -/
+theorem react_result_complete_direct {F : Facts} (hF : genFacts = some F) (cfg : Config)
+    (mode : Mode) (orig : List Msg) (script : List Reply) (l k : Nat) (r : Reply) (res : List Msg)
+    (hl : stepLimit F cfg = some l) (hk : script[k]? = some r)
+    (hpre : ∀ (j : Nat) rj, j < k → script[j]? = some rj → Continues cfg (goes F cfg mode) rj)
+    (hgo : goes F cfg mode r = true) (hres : (runTools cfg r.full).2 = .ok res)
+    (hid : returnDirectlyId cfg.returnDirectly r.full ≠ "") (hb : 2 * k + 3 ≤ l) :
+    (run F cfg mode orig script).result
+      = directResult (returnDirectlyId cfg.returnDirectly r.full) res ∧
+    (run F cfg mode orig script).evs.length = 2 * k + 3 := by
+  rw [facts_eq hF] at hl hpre hgo ⊢
+  rw [run_eq]; simp only [hl]
+  exact rounds_complete_direct cfg _ k script l orig r res hk hpre hgo hres hid hb
+
 /-- In `Generate` (and with the default or the whole-stream checker) the branch decision is
     "the assistant message has tool calls". -/
 theorem goes_generate {F : Facts} (hF : genFacts = some F) (cfg : Config) (r : Reply)
@@ -119,6 +152,14 @@ theorem react_result_direct (cfg : Config) (r : Reply) (res : List Msg) (m : Msg
   obtain ⟨c, hc, _, a, ha, hans⟩ := direct_first cfg r.full res hres hnd hid
   rw [ha] at hm
   exact ⟨c, hc, (Except.ok.inj hm) ▸ hans⟩
+
+/-- what "went round" / "stopped for return-directly" means in terms of tool names, for
+    messages whose call ids are non-empty -/
+theorem return_directly_detected (cfg : Config) (r : Reply)
+    (hids : ∀ c ∈ r.full.calls, c.id ≠ "") :
+    returnDirectlyId cfg.returnDirectly r.full = "" ↔
+      ∀ c ∈ r.full.calls, c.name ∉ cfg.returnDirectly :=
+  returnDirectlyId_empty_iff _ _ hids
 
 /-! ## termination -/
 
@@ -204,6 +245,22 @@ theorem generate_eq_stream_partial {F : Facts} (hF : genFacts = some F) (cfg : C
   rw [facts_eq hF]
   simp only [Config.checkerSpec, hc]
   exact firstChunk_agree r (h r hr)
+
+/-- Shape of every divergence under the default checker (what the harness relies on to tell
+    the recorded finding from any other Generate/Stream difference): some reply of the
+    script has its tool calls behind a content chunk. -/
+theorem divergence_needs_late_toolcall {F : Facts} (hF : genFacts = some F) (cfg : Config)
+    (orig : List Msg) (script : List Reply) (hc : cfg.checker = none)
+    (hne : run F cfg .generate orig script ≠ run F cfg .stream orig script) :
+    ∃ r ∈ script, ¬ ToolCallsInFirstNonEmptyChunk r := by
+  apply Classical.byContradiction
+  intro hno
+  apply hne
+  apply generate_eq_stream_partial hF cfg orig script hc
+  intro r hr
+  apply Classical.byContradiction
+  intro hnr
+  exact hno ⟨r, hr, hnr⟩
 
 /-- With a checker that reads the stream until it finds a tool call (the remedy the doc
     comment of `StreamToolCallChecker` prescribes) the clause holds for every script. -/
